@@ -163,6 +163,24 @@ class Wif(Driver):
         ok, other = _try(quiet, key.address, not comp)
         if not ok or other == f3[4]:
             return BAD("address-compression", "address differs between compressed and uncompressed", repr(other), n=calls, clause="address-compression")
+        # the public-only copy of the key and of the re-parsed key keeps point, flag, hash160 and address (round 6, C10-x1)
+        for name, src in (("key", key), ("parse.wif(key.wif())", k2)):
+            ok, f4 = _try(lambda: (lambda c: (c.secret_exponent(), c.is_compressed(), tuple(c.public_pair()), c.sec(), c.hash160(), quiet(c.address)))(src.public_copy()))
+            calls += 1
+            if not ok or f4 != (None, comp, Q, sec_ref, h_ref, f3[4]):
+                return BAD("public-copy", repr((None, comp, Q, sec_ref.hex(), h_ref.hex(), f3[4])), repr(f4), n=calls, clause="public-copy:" + name)
+        # a checksummed text with this network's WIF prefix whose payload is not e32 or e32||01 is no WIF (round 6, C10-x2):
+        # refused = None or an exception (C18 decides totality), never a key
+        if not comp:
+            e32 = e.to_bytes(32, "big")
+            for tail_name, payload in (("tail-00", e32 + b"\x00"), ("tail-02", e32 + b"\x02"), ("tail-ff", e32 + b"\xff"), ("tail-0101", e32 + b"\x01\x01"),
+                                       ("tail-0100", e32 + b"\x01\x00"), ("tail-junk5", e32 + b"junk!"), ("short-31", e32[1:]), ("short-30+01", e32[2:] + b"\x01"),
+                                       ("empty", b"")):
+                ok, k5 = _try(quiet, nw.parse.wif, b58check(prefix + payload))
+                calls += 1
+                if ok and k5 is not None:
+                    return BAD("malformed-wif-accepted", "payload %s (%d bytes after the prefix) refused" % (tail_name, len(payload)),
+                               "parse.wif -> %r" % (k5,), n=calls, clause="wif-malformed:" + tail_name)
         lab = "seed" if e == seed_exponent(self.seed) else "boundary"
         return OK("roundtrip:%s:%s" % (lab, "compressed" if comp else "uncompressed"), n=calls + 1)
 
